@@ -1234,8 +1234,9 @@ func (e *Exec) bootstrap(st *Step) {
 			}
 		}
 	}
-	if d := DiffFlat(e.Model.Flatten(), ex.Flat, "", 4); len(d) > 0 {
-		e.viol(e.importProp(d[0]), "import.state_differs", "", "state after importing the export of height %d differs from the exported chain: %s", h, strings.Join(d, " ; "))
+	want0 := e.Model.Flatten()
+	if d := DiffFlat(want0, ex.Flat, "", 4); len(d) > 0 {
+		e.viol(e.importPropAll(want0, ex.Flat, d), "import.state_differs", "", "state after importing the export of height %d differs from the exported chain: %s", h, strings.Join(d, " ; "))
 		// when this difference belongs to another property than the one being decided, the imported chain still follows
 		// the original one: what it then does with the transactions to come is judged under the property they belong to
 		follow()
@@ -1345,12 +1346,28 @@ func (e *Exec) zeroHeightExport(r0 *Replica, secs map[string]string, vals []abci
 	}
 	ex := ExtractState(tmp.DeliverStores())
 	if d := DiffFlat(e.Model.Flatten(), ex.Flat, "", 4); len(d) > 0 {
-		e.viol(e.importProp(d[0]), "import.state_differs", "", "state after importing the zero-height export of height %d differs from the exported chain: %s", h, strings.Join(d, " ; "))
+		e.viol(e.importPropAll(e.Model.Flatten(), ex.Flat, d), "import.state_differs", "", "state after importing the zero-height export of height %d differs from the exported chain: %s", h, strings.Join(d, " ; "))
 	}
 }
 
 // importProp attributes an export/import difference: to C08 in general, and to the property that names
 // export/import for that kind of entity (records: C01, DID tombstones: C05) when that property is being checked.
+// importPropAll: the difference is attributed by its first few lines; when those do not name the property being decided,
+// every differing entry is looked at (a dropped tombstone may come after a hundred dropped documents).
+func (e *Exec) importPropAll(want, got map[string]string, shown []string) string {
+	for _, l := range shown {
+		if p := e.importProp(l); p != "C08" {
+			return p
+		}
+	}
+	for _, l := range DiffFlat(want, got, "", 100000) {
+		if p := e.importProp(l); p != "C08" {
+			return p
+		}
+	}
+	return "C08"
+}
+
 func (e *Exec) importProp(diffLine string) string {
 	switch {
 	case strings.Contains(diffLine, "aol/record/") && e.Prop == "C01":
